@@ -1,6 +1,6 @@
 (* pqref commands of C20 (Conc/Interleave.v). *)
 From Coq Require Import NArith ZArith List String Bool.
-From Pq Require Import Base.Bytes Conc.Interleave Extract.Sx.
+From Pq Require Import Base.Bytes Conc.Interleave Conc.Footprint Extract.Sx.
 Import ListNotations.
 Open Scope string_scope.
 
@@ -61,6 +61,34 @@ Definition h_rebuild_run (a : list sx) : sx :=
   | _ => err "arity"
   end.
 
+(* ---- wave 3: footprint events of the inventory-driven monitor ---- *)
+Definition pattern_of_code (n : N) : pattern :=
+  match n with
+  | 0 => PCheckThenAct | 1 => PIdemStore | 2 => PAugmented | 3 => PRmw | 4 => PSetRestore
+  | 5 => PMultiStore | 6 => PDelete | 7 => PMutCall | _ => PPlain
+  end%N.
+
+Definition as_event (s : sx) : option wevent :=
+  match s with
+  | SL [k; o; n; p] =>
+    match as_N k, as_opt as_N o, as_opt as_N n, as_N p with
+    | Some k, Some o, Some n, Some p => Some (mkEv k o n (pattern_of_code p))
+    | _, _, _, _ => None
+    end
+  | _ => None
+  end.
+
+(* (conc_footprint_check ((key (old)|() (new)|() pattern-code) ...)) -> (ok ((index key))|()) *)
+Definition h_footprint_check (a : list sx) : sx :=
+  match a with
+  | [evs] =>
+    match as_list_of as_event evs with
+    | Some evs => SL [sbool (footprint_ok evs); sopt (fun nk => SL [sN (fst nk); sN (snd nk)]) (first_bad_ev 0 [] evs)]
+    | None => err "args"
+    end
+  | _ => err "arity"
+  end.
+
 Definition table : list (string * handler) :=
   [("conc_trace_check", h_trace_check); ("conc_tree_writes", h_tree_writes);
-   ("conc_rebuild_run", h_rebuild_run)].
+   ("conc_rebuild_run", h_rebuild_run); ("conc_footprint_check", h_footprint_check)].
